@@ -4,7 +4,7 @@ CONSTANTS
   Groups = {"g1"}
   Nids = {"n1"}
   OpKinds = {"save","find","snap","rollback","list"}
-  MaxOps = 2
+  MaxOps = 1
   Dev = {"MemSnapshotTwoSections"}
 INVARIANT InvLinearisable
 INVARIANT SnapshotsConsistent
